@@ -196,12 +196,33 @@ def r17_1(rep: Report, idx: Index, models: dict[str, Model], assoc, sites) -> No
                 edges.append((m, col, col.fk.split('.')[0]))
     if len(edges) < 7:
         raise AnalysisError(f'only {len(edges)} foreign-key columns found; expected >= 7')
+    # a model is deletable directly (a site) or through a delete cascade from a deletable parent
+    deletable: dict[str, str] = {k: 'site' for k, v in sites.items() if v}
+    changed = True
+    while changed:
+        changed = False
+        for pm in models.values():
+            if pm.cls not in deletable:
+                continue
+            for r in pm.rels.values():
+                if 'delete' in r.cascade and r.target in models and r.target not in deletable:
+                    deletable[r.target] = f'cascade from {pm.cls}.{r.name}'
+                    changed = True
     for child, col, ptable in edges:
         parent = by_table.get(ptable)
         if parent is None:
             raise AnalysisError(f'{child.cls}.{col.name}: unknown parent table {ptable}')
         construct = f'{child.rel}::{child.cls}.{col.name}'
         psites = sites.get(parent.cls, [])
+        if not psites and parent.cls in deletable:
+            rel_pc0 = [r for r in parent.rels.values() if r.target == child.cls]
+            if not any('delete' in r.cascade for r in rel_pc0) and not col.ondelete \
+                    and not (rel_pc0 and col.nullable):
+                rep.fail(rid, construct, f'-> {parent.cls} @ {deletable[parent.cls]}',
+                         f'{parent.cls} rows are deleted through a {deletable[parent.cls]} but '
+                         f'{child.cls}.{col.name} has no delete rule towards {parent.cls}: dependent '
+                         f'{child.cls} rows are left dangling')
+                continue
         rel_pc = [r for r in parent.rels.values() if r.target == child.cls]
         cascade = any('delete' in r.cascade for r in rel_pc)
         key = f'-> {parent.cls}'
